@@ -2,6 +2,8 @@ package c11
 
 import (
 	"fmt"
+	"os"
+	"path/filepath"
 	"sync"
 	"testing"
 
@@ -278,5 +280,63 @@ func TestWriterReuse(t *testing.T) {
 			h.Passes = append(h.Passes, pass{Batches: bs, Closes: c})
 		}
 		checkHistory(t, rec, h, T)
+	})
+}
+
+// TestConcurrentSinks: several renders at once in one process, each with its own producer, writer and sink
+// (a program that exports its parts in parallel). Every sink must hold exactly what ITS renderer wrote.
+func TestConcurrentSinks(t *testing.T) {
+	rec := ev.Get()
+	T3, T2 := calibrate()
+	rapid.Check(t, func(t *rapid.T) {
+		k := rapid.IntRange(2, 6).Draw(t, "renders")
+		dir, err := os.MkdirTemp("", "c11conc")
+		if err != nil {
+			t.Fatalf("tempdir: %v", err)
+		}
+		defer os.RemoveAll(dir)
+		scripts := make([]*script, k)
+		kinds := ""
+		for i := range scripts {
+			l := fmt.Sprintf("r%d", i)
+			// (no DXF sink here: known finding C09:dxf:bytes-depend-on-concurrent-dxf-writers concerns the
+			// dxf package's shared state under concurrent drawings)
+			sink := rapid.SampledFrom([]string{"ToSTL", "ToSTL", "To3MF", "ToTriangles", "ToSVG"}).Draw(t, l+".sink")
+			dim, T := 3, T3
+			if sink == "ToSVG" {
+				dim, T = 2, T2
+			}
+			n, _ := drawTotal(t, l+".total", T, 6000)
+			if n < 3*T {
+				n += 3 * T // several channel sends per render, so that the renders really overlap
+			}
+			bs, _ := drawPartition(t, l, T, n)
+			ext := map[string]string{"ToSTL": "stl", "To3MF": "3mf", "ToSVG": "svg", "ToTriangles": "mem"}[sink]
+			scripts[i] = &script{Dim: dim, Sink: sink, Batches: [][]int{bs}, Yield: []int{rapid.SampledFrom([]int{0, 1, 7}).Draw(t, l+".yield")}, Path: filepath.Join(dir, fmt.Sprintf("out%d.%s", i, ext))}
+			kinds += sink + " "
+		}
+		out := make([]*delivery, k)
+		var wg sync.WaitGroup
+		quiet(func() {
+			for i := range scripts {
+				wg.Add(1)
+				go func(i int) {
+					defer wg.Done()
+					if scripts[i].Dim == 3 {
+						out[i] = run3(scripts[i])
+					} else {
+						out[i] = run2(scripts[i])
+					}
+				}(i)
+			}
+			wg.Wait()
+		})
+		rec.Case(true, ev.Key("concurrent-sinks", kinds, scripts), fmt.Sprintf("concurrent-sinks:renders=%d", k))
+		for i, s := range scripts {
+			rec.Label("concurrent-sinks:sink:" + s.Sink)
+			if key, msg := judge(s, out[i]); key != "" {
+				rec.Violation(t, s.Sink+":concurrent-sinks:"+key, "%d renders at once (%s); render %d into %s: %s", k, kinds, i, s.Sink, msg)
+			}
+		}
 	})
 }
